@@ -5,118 +5,151 @@ namespace Executor
 theorem Req.record_eq (r : Req) (c : Nat) : r.record c = c + 1 := by
   unfold Req.record; split <;> rfl
 
-/-- usable hosts, in iterator order -/
-def usable (hs : List Host) : List Host := hs.filter (fun h => h.up && h.conn)
+/-- `as` (the hosts of the attempts, the first of them being request number `k`) walks along `ids` (the selected
+    host followed by the iterator's output) in a changing environment `us`:
+    a host is passed over only if it is unusable at that moment (`skip`) or after an attempt on it (`move`);
+    every attempt is on a host that is usable at that moment; after an attempt the walk stays on the host
+    (`stay`, and if the host has become unusable meanwhile the next step skips it) or moves on; never backwards. -/
+inductive Walk (us : Nat → Nat → Bool) : Nat → List Nat → List Nat → Prop
+  | done (k : Nat) (ids : List Nat) : Walk us k ids []
+  | skip (k u : Nat) (ids as : List Nat) : us k u = false → Walk us k ids as → Walk us k (u :: ids) as
+  | stay (k u : Nat) (ids as : List Nat) : us k u = true → Walk us (k+1) (u :: ids) as → Walk us k (u :: ids) (u :: as)
+  | move (k u : Nat) (ids as : List Nat) : us k u = true → Walk us (k+1) ids as → Walk us k (u :: ids) (u :: as)
 
-theorem nextUsable_spec : ∀ (hs : List Host),
-    (nextUsable hs = none ∧ usable hs = []) ∨
-    (∃ h rest, nextUsable hs = some (h, rest) ∧ usable hs = h :: usable rest)
-  | [] => Or.inl ⟨rfl, rfl⟩
-  | h :: hs => by
-    simp only [nextUsable, usable, List.filter_cons]
-    by_cases hu : (h.up && h.conn) = true
+/-- what the loop head finds: nothing usable now, or the first host usable now with everything before it unusable now -/
+theorem nextUsable_spec (u : Nat → Bool) : ∀ (l : List Nat),
+    (nextUsable u l = none ∧ ∀ h ∈ l, u h = false) ∨
+    (∃ h rest pre, nextUsable u l = some (h, rest) ∧ l = pre ++ h :: rest ∧ u h = true ∧ ∀ x ∈ pre, u x = false)
+  | [] => Or.inl ⟨rfl, by simp⟩
+  | x :: l => by
+    simp only [nextUsable]
+    by_cases hu : u x = true
     · simp only [hu, if_true]
-      exact Or.inr ⟨h, hs, rfl, rfl⟩
-    · simp only [hu]
-      exact nextUsable_spec hs
+      exact Or.inr ⟨x, l, [], rfl, rfl, hu, by simp⟩
+    · have hu' : u x = false := by simpa using hu
+      simp only [hu', Bool.false_eq_true, if_false]
+      rcases nextUsable_spec u l with ⟨hn, ha⟩ | ⟨h, rest, pre, hn, hl, hh, hp⟩
+      · left; refine ⟨hn, ?_⟩
+        intro y hy; rcases List.mem_cons.mp hy with rfl | hy
+        · exact hu'
+        · exact ha y hy
+      · right; refine ⟨h, rest, x :: pre, hn, by simp [hl], hh, ?_⟩
+        intro y hy; rcases List.mem_cons.mp hy with rfl | hy
+        · exact hu'
+        · exact hp y hy
 
-/-- `as` walks along `us` with repetitions: every attempt is on the current host or the walk has moved on
-    to the next usable host; never backwards, never skipping a usable host. -/
-inductive Walk : List Nat → List Nat → Prop
-  | done (us : List Nat) : Walk us []
-  | stay (u : Nat) (us as : List Nat) : Walk (u :: us) as → Walk (u :: us) (u :: as)
-  | move (u : Nat) (us as : List Nat) : Walk us as → Walk (u :: us) (u :: as)
+theorem walk_skip_prefix (us : Nat → Nat → Bool) (k : Nat) (tail as : List Nat) :
+    ∀ (pre : List Nat), (∀ x ∈ pre, us k x = false) → Walk us k tail as → Walk us k (pre ++ tail) as
+  | [], _, h => h
+  | x :: pre, hp, h =>
+    Walk.skip k x _ _ (hp x (by simp)) (walk_skip_prefix us k tail as pre (fun y hy => hp y (by simp [hy])) h)
 
 theorem getLast?_cons_of_some {α : Type} (y x : α) : ∀ (l : List α), l.getLast? = some x → (y :: l).getLast? = some x
   | [], h => by simp at h
   | z :: l, h => by simpa [List.getLast?_cons_cons] using h
 
-/-- what the loop guarantees about its output, relative to where it starts: `ids` = the current host followed
-    by the usable rest, `k` = index of the next request, `cnt` = the attempt counter, `lastErr` = previous error -/
-def Good (outcome : Nat → Res) (ids : List Nat) (k cnt : Nat) (lastErr : Option Nat) (o : Out) : Prop :=
-  Walk ids (o.attempts.map (·.host)) ∧
+/-- what the loop guarantees about its output, relative to where it starts: `pending` = the selected host followed
+    by the rest of the iterator's output, `k` = number of the next request, `cnt` = the attempt counter,
+    `lastErr` = the recorded previous error and the number of its request -/
+def Good (outcome : Nat → Res) (us : Nat → Nat → Bool) (pending : List Nat) (k cnt : Nat) (lastErr : Option (Nat × Nat))
+    (o : Out) : Prop :=
+  Walk us k pending (o.attempts.map (·.host)) ∧
   o.cnt = cnt + o.attempts.length ∧
-  (∀ i a, o.attempts[i]? = some a → a.idx = cnt + i ∧ a.res = outcome (k + i)) ∧
+  (∀ i a, o.attempts[i]? = some a → a.idx = cnt + i ∧ a.res = outcome (k + i) ∧ us (k + i) a.host = true) ∧
   (∀ r, o.final = .last r → ∃ a, o.attempts.getLast? = some a ∧ a.res = r) ∧
-  (∀ e, o.final = .lastErr e →
-      (o.attempts = [] ∧ lastErr = some e) ∨ (∃ a, o.attempts.getLast? = some a ∧ a.res = .err e)) ∧
-  (o.final = .noConnections → o.attempts = [] ∧ lastErr = none)
+  (∀ e j, o.final = .lastErr e j →
+      (o.attempts = [] ∧ lastErr = some (e, j)) ∨
+      (∃ a, o.attempts.getLast? = some a ∧ a.res = .err e ∧ j + 1 = k + o.attempts.length)) ∧
+  (o.final = .noConnections → o.attempts = [] ∧ lastErr = none) ∧
+  (o.attempts = [] → o.final = .outOfFuel ∨ (lastErr = none ∧ o.final = .noConnections) ∨
+      (∃ e j, lastErr = some (e, j) ∧ o.final = .lastErr e j))
 
-theorem good_stop (outcome : Nat → Res) (hid : Nat) (us : List Nat) (k cnt cons c : Nat) (lastErr : Option Nat)
+theorem good_stop (outcome : Nat → Res) (us : Nat → Nat → Bool) (h : Nat) (rest : List Nat) (k cnt cons c : Nat)
+    (lastErr : Option (Nat × Nat)) (hu : us k h = true)
     (f : Final) (hf : f = .last (outcome k) ∨ f = .unknownRetryType) :
-    Good outcome (hid :: us) k cnt lastErr ⟨[⟨hid, cnt, cons, outcome k⟩], f, cnt + 1, c⟩ := by
-  refine ⟨?_, rfl, ?_, ?_, ?_, ?_⟩
-  · exact Walk.stay _ _ _ (Walk.done _)
-  · intro i a h
+    Good outcome us (h :: rest) k cnt lastErr ⟨[⟨h, cnt, cons, outcome k⟩], f, cnt + 1, c⟩ := by
+  refine ⟨?_, rfl, ?_, ?_, ?_, ?_, ?_⟩
+  · exact Walk.stay _ _ _ _ hu (Walk.done _ _)
+  · intro i a ha
     cases i with
-    | zero => simp at h; subst h; simp
-    | succ i => simp at h
+    | zero => simp at ha; subst ha; simpa using hu
+    | succ i => simp at ha
   · intro r hr
     rcases hf with hf | hf
     · subst hf; simp at hr; exact ⟨_, rfl, hr⟩
     · subst hf; simp at hr
-  · intro e he; rcases hf with hf | hf <;> subst hf <;> simp at he
+  · intro e j he; rcases hf with hf | hf <;> subst hf <;> simp at he
   · intro he; rcases hf with hf | hf <;> subst hf <;> simp at he
+  · intro he; simp at he
 
-theorem good_push (outcome : Nat → Res) (ids ids' : List Nat) (hid k cnt cons e : Nat) (lastErr : Option Nat) (o : Out)
-    (hk : outcome k = .err e)
-    (hw : ∀ s, Walk ids' s → Walk ids (hid :: s))
-    (h : Good outcome ids' (k + 1) (cnt + 1) (some e) o) :
-    Good outcome ids k cnt lastErr (o.push ⟨hid, cnt, cons, outcome k⟩) := by
-  obtain ⟨h1, h2, h3, h4, h5, h6⟩ := h
-  refine ⟨?_, ?_, ?_, ?_, ?_, ?_⟩
+theorem good_push (outcome : Nat → Res) (us : Nat → Nat → Bool) (pending pending' : List Nat) (h k cnt cons e : Nat)
+    (lastErr : Option (Nat × Nat)) (o : Out)
+    (hk : outcome k = .err e) (hu : us k h = true)
+    (hw : ∀ s, Walk us (k+1) pending' s → Walk us k pending (h :: s))
+    (hg : Good outcome us pending' (k + 1) (cnt + 1) (some (e, k)) o) :
+    Good outcome us pending k cnt lastErr (o.push ⟨h, cnt, cons, outcome k⟩) := by
+  obtain ⟨h1, h2, h3, h4, h5, h6, _⟩ := hg
+  refine ⟨?_, ?_, ?_, ?_, ?_, ?_, ?_⟩
   · simpa [Out.push] using hw _ h1
   · simp only [Out.push, List.length_cons]; omega
   · intro i a ha
     cases i with
-    | zero => simp [Out.push] at ha; subst ha; simp
+    | zero => simp [Out.push] at ha; subst ha; simpa using hu
     | succ i =>
       simp only [Out.push, List.getElem?_cons_succ] at ha
-      obtain ⟨g1, g2⟩ := h3 i a ha
-      refine ⟨by omega, ?_⟩
-      rw [g2]; congr 1; omega
+      obtain ⟨g1, g2, g3⟩ := h3 i a ha
+      refine ⟨by omega, ?_, ?_⟩
+      · rw [g2]; congr 1; omega
+      · rw [← g3]; congr 1; omega
   · intro r hr
     obtain ⟨a, ha1, ha2⟩ := h4 r hr
     exact ⟨a, getLast?_cons_of_some _ _ _ ha1, ha2⟩
-  · intro e' he
+  · intro e' j he
     right
-    rcases h5 e' he with ⟨g1, g2⟩ | ⟨a, ha1, ha2⟩
-    · simp only [Option.some.injEq] at g2; subst g2
-      refine ⟨⟨hid, cnt, cons, outcome k⟩, ?_, hk⟩
-      simp [Out.push, g1]
-    · exact ⟨a, getLast?_cons_of_some _ _ _ ha1, ha2⟩
+    rcases h5 e' j he with ⟨g1, g2⟩ | ⟨a, ha1, ha2, ha3⟩
+    · simp only [Option.some.injEq, Prod.mk.injEq] at g2
+      obtain ⟨g2, g3⟩ := g2; subst g2; subst g3
+      refine ⟨⟨h, cnt, cons, outcome k⟩, ?_, hk, ?_⟩
+      · simp [Out.push, g1]
+      · simp [Out.push, g1]
+    · refine ⟨a, getLast?_cons_of_some _ _ _ ha1, ha2, ?_⟩
+      simp only [Out.push, List.length_cons]; omega
   · intro he
     have := (h6 he).2
     simp at this
+  · intro he; simp [Out.push] at he
 
-/-- generalised statement about the loop -/
-theorem doLoop_good (req : Req) (pol : Option Policy) (outcome : Nat → Res) :
-    ∀ (fuel : Nat) (cur : Option Host) (rest : List Host) (k cnt cons : Nat) (lastErr : Option Nat),
-    Good outcome ((cur.toList ++ usable rest).map (·.id)) k cnt lastErr
-      (doLoop req pol outcome fuel cur rest k cnt cons lastErr) := by
+/-- generalised statement about the loop, for every environment -/
+theorem doLoop_good (req : Req) (pol : Option Policy) (outcome : Nat → Res) (us : Nat → Nat → Bool) :
+    ∀ (fuel : Nat) (pending : List Nat) (k cnt cons : Nat) (lastErr : Option (Nat × Nat)),
+    Good outcome us pending k cnt lastErr (doLoop req pol outcome us fuel pending k cnt cons lastErr) := by
   intro fuel
   induction fuel with
   | zero =>
-    intro cur rest k cnt cons lastErr
-    refine ⟨Walk.done _, rfl, ?_, ?_, ?_, ?_⟩ <;> simp [doLoop]
+    intro pending k cnt cons lastErr
+    refine ⟨Walk.done _ _, rfl, ?_, ?_, ?_, ?_, ?_⟩ <;> simp [doLoop]
   | succ fuel ih =>
-    intro cur rest k cnt cons lastErr
-    cases cur with
-    | none =>
+    intro pending k cnt cons lastErr
+    rcases nextUsable_spec (us k) pending with ⟨hn, _⟩ | ⟨h, rest, pre, hn, hl, hu, hpre⟩
+    · simp only [doLoop, hn]
       cases lastErr with
-      | none => refine ⟨Walk.done _, rfl, ?_, ?_, ?_, ?_⟩ <;> simp [doLoop]
-      | some e => refine ⟨Walk.done _, rfl, ?_, ?_, ?_, ?_⟩ <;> simp [doLoop]
-    | some h =>
-      have ids : ((some h).toList ++ usable rest).map (·.id) = h.id :: (usable rest).map (·.id) := by simp
-      rw [ids]
-      simp only [doLoop, Req.record_eq]
+      | none => refine ⟨Walk.done _ _, rfl, ?_, ?_, ?_, ?_, ?_⟩ <;> simp
+      | some ej =>
+        obtain ⟨e, j⟩ := ej
+        refine ⟨Walk.done _ _, rfl, ?_, ?_, ?_, ?_, ?_⟩ <;> simp
+    · -- everything the loop does from the first usable host on is Good for `h :: rest`; the skipped prefix is added last
+      have lift : ∀ o, Good outcome us (h :: rest) k cnt lastErr o → Good outcome us pending k cnt lastErr o := by
+        intro o ⟨g1, g2⟩
+        exact ⟨by rw [hl]; exact walk_skip_prefix us k _ _ pre hpre g1, g2⟩
+      apply lift
+      simp only [doLoop, hn, Req.record_eq]
       cases hr : outcome k with
-      | logical => simp only []; rw [← hr]; exact good_stop _ _ _ _ _ _ _ _ _ (Or.inl (by rw [hr]))
-      | ok => simp only []; rw [← hr]; exact good_stop _ _ _ _ _ _ _ _ _ (Or.inl (by rw [hr]))
+      | logical => simp only []; rw [← hr]; exact good_stop _ _ _ _ _ _ _ _ _ hu _ (Or.inl (by rw [hr]))
+      | ok => simp only []; rw [← hr]; exact good_stop _ _ _ _ _ _ _ _ _ hu _ (Or.inl (by rw [hr]))
       | err e =>
         simp only []
         cases pol with
-        | none => simp only []; rw [← hr]; exact good_stop _ _ _ _ _ _ _ _ _ (Or.inl (by rw [hr]))
+        | none => simp only []; rw [← hr]; exact good_stop _ _ _ _ _ _ _ _ _ hu _ (Or.inl (by rw [hr]))
         | some p =>
           simp only []
           by_cases hat : p.attempt (cnt + 1) = true
@@ -124,46 +157,37 @@ theorem doLoop_good (req : Req) (pol : Option Policy) (outcome : Nat → Res) :
             cases hrt : p.rtype e with
             | retry =>
               simp only []; rw [← hr]
-              refine good_push outcome _ _ _ _ _ _ e _ _ hr ?_ (ih (some h) rest (k+1) (cnt+1) _ (some e))
-              intro s hs
-              simp only [Option.toList, List.cons_append, List.nil_append, List.map_cons] at hs
-              exact Walk.stay _ _ _ hs
-            | rethrow => simp only []; rw [← hr]; exact good_stop _ _ _ _ _ _ _ _ _ (Or.inl (by rw [hr]))
-            | ignore => simp only []; rw [← hr]; exact good_stop _ _ _ _ _ _ _ _ _ (Or.inl (by rw [hr]))
-            | unknown => simp only []; rw [← hr]; exact good_stop _ _ _ _ _ _ _ _ _ (Or.inr rfl)
+              exact good_push outcome us _ _ _ _ _ _ e _ _ hr hu (fun s hs => Walk.stay _ _ _ _ hu hs)
+                (ih (h :: rest) (k+1) (cnt+1) _ (some (e, k)))
+            | rethrow => simp only []; rw [← hr]; exact good_stop _ _ _ _ _ _ _ _ _ hu _ (Or.inl (by rw [hr]))
+            | ignore => simp only []; rw [← hr]; exact good_stop _ _ _ _ _ _ _ _ _ hu _ (Or.inl (by rw [hr]))
+            | unknown => simp only []; rw [← hr]; exact good_stop _ _ _ _ _ _ _ _ _ hu _ (Or.inr rfl)
             | nextHost =>
-              simp only []
-              rcases nextUsable_spec rest with ⟨hn, hu⟩ | ⟨h', rest', hn, hu⟩
-              · simp only [hn]; rw [← hr]
-                refine good_push outcome _ _ _ _ _ _ e _ _ hr ?_ (ih none [] (k+1) (cnt+1) _ (some e))
-                intro s hs
-                simp only [Option.toList, List.nil_append, usable, List.filter_nil, List.map_nil] at hs
-                cases hs
-                exact Walk.stay _ _ _ (Walk.done _)
-              · simp only [hn]; rw [← hr]
-                refine good_push outcome _ _ _ _ _ _ e _ _ hr ?_ (ih (some h') rest' (k+1) (cnt+1) _ (some e))
-                intro s hs
-                simp only [Option.toList, List.cons_append, List.nil_append, List.map_cons] at hs
-                rw [hu]
-                exact Walk.move _ _ _ hs
+              simp only []; rw [← hr]
+              exact good_push outcome us _ _ _ _ _ _ e _ _ hr hu (fun s hs => Walk.move _ _ _ _ hu hs)
+                (ih rest (k+1) (cnt+1) _ (some (e, k)))
           · have hat' : p.attempt (cnt + 1) = false := by simpa using hat
             simp only [hat', Bool.not_false, if_true]
-            rw [← hr]; exact good_stop _ _ _ _ _ _ _ _ _ (Or.inl (by rw [hr]))
+            rw [← hr]; exact good_stop _ _ _ _ _ _ _ _ _ hu _ (Or.inl (by rw [hr]))
 
-/-- budget lemma for policies of the form `Attempts() ≤ N`, for every statement kind, observed or not, and every
-    starting value of the counter: one attempt is always made; a further one only while the counter is ≤ N -/
-theorem doLoop_budget (req : Req) (p : Policy) (N : Nat) (hp : ∀ m, p.attempt m = decide (m ≤ N)) (outcome : Nat → Res) :
-    ∀ (fuel : Nat) (cur : Option Host) (rest : List Host) (k cnt cons : Nat) (lastErr : Option Nat),
-    (doLoop req (some p) outcome fuel cur rest k cnt cons lastErr).attempts.length ≤ 1 + (N - cnt) := by
+/-- budget lemma for policies of the form `Attempts() ≤ N`, for every statement kind, observed or not, every
+    starting value of the counter and every environment: one attempt is always made; a further one only while the
+    counter is ≤ N -/
+theorem doLoop_budget (req : Req) (p : Policy) (N : Nat) (hp : ∀ m, p.attempt m = decide (m ≤ N)) (outcome : Nat → Res)
+    (us : Nat → Nat → Bool) :
+    ∀ (fuel : Nat) (pending : List Nat) (k cnt cons : Nat) (lastErr : Option (Nat × Nat)),
+    (doLoop req (some p) outcome us fuel pending k cnt cons lastErr).attempts.length ≤ 1 + (N - cnt) := by
   intro fuel
   induction fuel with
-  | zero => intro cur rest k cnt cons lastErr; simp [doLoop]
+  | zero => intro pending k cnt cons lastErr; simp [doLoop]
   | succ fuel ih =>
-    intro cur rest k cnt cons lastErr
-    cases cur with
-    | none => cases lastErr <;> simp [doLoop]
-    | some h =>
-      simp only [doLoop, Req.record_eq]
+    intro pending k cnt cons lastErr
+    simp only [doLoop, Req.record_eq]
+    cases nextUsable (us k) pending with
+    | none => cases lastErr <;> simp
+    | some hr' =>
+      obtain ⟨h, rest⟩ := hr'
+      simp only []
       cases hr : outcome k with
       | logical => simp
       | ok => simp
@@ -173,59 +197,54 @@ theorem doLoop_budget (req : Req) (p : Policy) (N : Nat) (hp : ∀ m, p.attempt 
         · simp only [hle, decide_true, Bool.not_true, Bool.false_eq_true, if_false]
           cases p.rtype e with
           | retry =>
-            have := ih (some h) rest (k+1) (cnt+1) ((p.newCons (cnt+1)).getD cons) (some e)
+            have := ih (h :: rest) (k+1) (cnt+1) ((p.newCons (cnt+1)).getD cons) (some (e, k))
             simp only [Out.push, List.length_cons]; omega
           | rethrow => simp
           | ignore => simp
           | unknown => simp
           | nextHost =>
-            simp only []
-            cases nextUsable rest with
-            | none =>
-              have := ih none [] (k+1) (cnt+1) ((p.newCons (cnt+1)).getD cons) (some e)
-              simp only [Out.push, List.length_cons]; omega
-            | some hr' =>
-              obtain ⟨h', rest'⟩ := hr'
-              have := ih (some h') rest' (k+1) (cnt+1) ((p.newCons (cnt+1)).getD cons) (some e)
-              simp only [Out.push, List.length_cons]; omega
+            have := ih rest (k+1) (cnt+1) ((p.newCons (cnt+1)).getD cons) (some (e, k))
+            simp only [Out.push, List.length_cons]; omega
         · simp only [hle, decide_false, Bool.not_false, if_true]
           simp
 
 /-- consistency of the attempts: the first request carries the statement's level; every later one carries what
     the policy's `Attempt` set when it allowed that retry (or the previous level if it set none) -/
-theorem doLoop_cons (req : Req) (p : Policy) (outcome : Nat → Res) :
-    ∀ (fuel : Nat) (cur : Option Host) (rest : List Host) (k cnt cons : Nat) (lastErr : Option Nat),
-    let o := doLoop req (some p) outcome fuel cur rest k cnt cons lastErr
+theorem doLoop_cons (req : Req) (p : Policy) (outcome : Nat → Res) (us : Nat → Nat → Bool) :
+    ∀ (fuel : Nat) (pending : List Nat) (k cnt cons : Nat) (lastErr : Option (Nat × Nat)),
+    let o := doLoop req (some p) outcome us fuel pending k cnt cons lastErr
     (∀ a, o.attempts[0]? = some a → a.cons = cons) ∧
     (∀ i a b, o.attempts[i]? = some a → o.attempts[i+1]? = some b → b.cons = (p.newCons (cnt + i + 1)).getD a.cons) := by
   intro fuel
   induction fuel with
-  | zero => intro cur rest k cnt cons lastErr; simp [doLoop]
+  | zero => intro pending k cnt cons lastErr; simp [doLoop]
   | succ fuel ih =>
-    intro cur rest k cnt cons lastErr
-    cases cur with
-    | none => cases lastErr <;> simp [doLoop]
-    | some h =>
-      have push : ∀ (o : Out) (a0 : Att), a0.cons = cons →
-          ((∀ a, o.attempts[0]? = some a → a.cons = (p.newCons (cnt + 1)).getD cons) ∧
-           (∀ i a b, o.attempts[i]? = some a → o.attempts[i+1]? = some b → b.cons = (p.newCons (cnt + 1 + i + 1)).getD a.cons)) →
-          ((∀ a, (o.push a0).attempts[0]? = some a → a.cons = cons) ∧
-           (∀ i a b, (o.push a0).attempts[i]? = some a → (o.push a0).attempts[i+1]? = some b →
-              b.cons = (p.newCons (cnt + i + 1)).getD a.cons)) := by
-        intro o a0 h0 ⟨g1, g2⟩
-        refine ⟨?_, ?_⟩
-        · intro a ha; simp [Out.push] at ha; subst ha; exact h0
-        · intro i a b ha hb
-          cases i with
-          | zero =>
-            simp [Out.push] at ha hb
-            subst ha
-            rw [g1 b hb, h0]
-          | succ i =>
-            simp only [Out.push, List.getElem?_cons_succ] at ha hb
-            have := g2 i a b ha hb
-            rw [this]; congr 2; omega
-      simp only [doLoop, Req.record_eq]
+    intro pending k cnt cons lastErr
+    have push : ∀ (o : Out) (a0 : Att), a0.cons = cons →
+        ((∀ a, o.attempts[0]? = some a → a.cons = (p.newCons (cnt + 1)).getD cons) ∧
+         (∀ i a b, o.attempts[i]? = some a → o.attempts[i+1]? = some b → b.cons = (p.newCons (cnt + 1 + i + 1)).getD a.cons)) →
+        ((∀ a, (o.push a0).attempts[0]? = some a → a.cons = cons) ∧
+         (∀ i a b, (o.push a0).attempts[i]? = some a → (o.push a0).attempts[i+1]? = some b →
+            b.cons = (p.newCons (cnt + i + 1)).getD a.cons)) := by
+      intro o a0 h0 ⟨g1, g2⟩
+      refine ⟨?_, ?_⟩
+      · intro a ha; simp [Out.push] at ha; subst ha; exact h0
+      · intro i a b ha hb
+        cases i with
+        | zero =>
+          simp [Out.push] at ha hb
+          subst ha
+          rw [g1 b hb, h0]
+        | succ i =>
+          simp only [Out.push, List.getElem?_cons_succ] at ha hb
+          have := g2 i a b ha hb
+          rw [this]; congr 2; omega
+    simp only [doLoop, Req.record_eq]
+    cases nextUsable (us k) pending with
+    | none => cases lastErr <;> simp
+    | some hr' =>
+      obtain ⟨h, rest⟩ := hr'
+      simp only []
       cases hr : outcome k with
       | logical => simp
       | ok => simp
@@ -234,17 +253,11 @@ theorem doLoop_cons (req : Req) (p : Policy) (outcome : Nat → Res) :
         by_cases hat : p.attempt (cnt + 1) = true
         · simp only [hat, Bool.not_true, Bool.false_eq_true, if_false]
           cases p.rtype e with
-          | retry => exact push _ _ rfl (ih (some h) rest (k+1) (cnt+1) _ (some e))
+          | retry => exact push _ _ rfl (ih (h :: rest) (k+1) (cnt+1) _ (some (e, k)))
           | rethrow => simp
           | ignore => simp
           | unknown => simp
-          | nextHost =>
-            simp only []
-            cases nextUsable rest with
-            | none => exact push _ _ rfl (ih none [] (k+1) (cnt+1) _ (some e))
-            | some hr' =>
-              obtain ⟨h', rest'⟩ := hr'
-              exact push _ _ rfl (ih (some h') rest' (k+1) (cnt+1) _ (some e))
+          | nextHost => exact push _ _ rfl (ih rest (k+1) (cnt+1) _ (some (e, k)))
         · have hat' : p.attempt (cnt + 1) = false := by simpa using hat
           simp only [hat', Bool.not_false, if_true]
           simp
